@@ -20,7 +20,8 @@ Inductive kid :=
 | KReaped.
 
 Inductive par :=
-| PStart | PMaps | PSyncRead | PCallback | PExecRead | PFail (l : loc) | PDoneOk | PDoneErr (l : loc).
+| PStart | PMaps | PSyncRead | PCallback | PExecRead | PFail (l : loc) | PDoneOk | PDoneErr (l : loc)
+| PCrashed.      (* the launching process died (killed, crashed): its end of the socket is closed by the kernel, nobody kills or reaps the child *)
 
 Inductive c2p := MReady | MErr (l : loc).
 Inductive p2c := MVerdict (ok : bool) | MAck.
@@ -61,6 +62,9 @@ Definition kid_fail (s : sst) (l : loc) : sst := w_kid (w_kloc (w_up s (y_up s +
 Definition after_maps (s : sst) : par :=
   if y_sync s then PSyncRead else if y_early s then PDoneOk else PExecRead.
 
+(** the launcher can die at any moment after the clone *)
+Definition crash (s : sst) : sst := w_par (w_down_closed s) PCrashed.
+
 Definition par_steps (s : sst) : list sst :=
   match y_par s with
   | PStart =>
@@ -70,27 +74,27 @@ Definition par_steps (s : sst) : list sst :=
   | PMaps =>
       (* the id maps are written (or not) and the verdict is sent *)
       [w_par (w_down s (y_down s ++ [MVerdict true])) (after_maps s);
-       w_par (w_down s (y_down s ++ [MVerdict false])) (after_maps s)]
+       w_par (w_down s (y_down s ++ [MVerdict false])) (after_maps s); crash s]
   | PSyncRead =>
       match y_up s with
-      | MReady :: r => [w_par (w_up s r) PCallback]
-      | MErr l :: r => [w_par (w_up s r) (PFail l)]
-      | [] => if y_up_closed s then [w_par s (PFail LPipe)] else []
+      | MReady :: r => [w_par (w_up s r) PCallback; crash s]
+      | MErr l :: r => [w_par (w_up s r) (PFail l); crash s]
+      | [] => if y_up_closed s then [w_par s (PFail LPipe); crash s] else [crash s]
       end
   | PCallback =>
       (* the callback returns nil: ack; or an error: fail *)
       [w_par (w_acked (w_down s (y_down s ++ [MAck]))) (if y_early s then PDoneOk else PExecRead);
-       w_par s (PFail LCallback)]
+       w_par s (PFail LCallback); crash s]
   | PExecRead =>
       match y_up s with
-      | MErr l :: r => [w_par (w_up s r) (PFail l)]
-      | MReady :: r => [w_par (w_up s r) (PFail LPipe)]
-      | [] => if y_up_closed s then [w_par s PDoneOk] else []
+      | MErr l :: r => [w_par (w_up s r) (PFail l); crash s]
+      | MReady :: r => [w_par (w_up s r) (PFail LPipe); crash s]
+      | [] => if y_up_closed s then [w_par s PDoneOk; crash s] else [crash s]
       end
   | PFail l =>
       (* close the parent's end, SIGKILL, wait4 *)
-      [w_par (w_kid (w_down_closed s) KReaped) (PDoneErr l)]
-  | PDoneOk | PDoneErr _ => []
+      [w_par (w_kid (w_down_closed s) KReaped) (PDoneErr l); crash s]
+  | PDoneOk | PDoneErr _ | PCrashed => []
   end.
 
 Definition kid_steps (s : sst) : list sst :=
@@ -124,14 +128,14 @@ Definition snext (s : sst) : list sst := par_steps s ++ kid_steps s.
 Definition loc_num l := match l with LNone => 0 | LClone => 1 | LUserns => 2 | LSetup => 3 | LSyncRead => 4 | LExec => 5 | LCallback => 6 | LPipe => 7 end.
 Definition kid_num k := match k with KNone => 0 | KUserWait => 1 | KSetup => 2 | KSyncWait => 3 | KPostSync => 4 | KExeced => 5 | KFailed => 6 | KZombie => 7 | KReaped => 8 end.
 Definition par_num p := match p with PStart => 0 | PMaps => 1 | PSyncRead => 2 | PCallback => 3 | PExecRead => 4 | PDoneOk => 5
-                                    | PFail l => 10 + loc_num l | PDoneErr l => 20 + loc_num l end.
+                                    | PFail l => 10 + loc_num l | PDoneErr l => 20 + loc_num l | PCrashed => 6 end.
 Definition c2p_num m := match m with MReady => 0 | MErr l => 1 + loc_num l end.
 Definition p2c_num m := match m with MVerdict true => 0 | MVerdict false => 1 | MAck => 2 end.
 
 Lemma loc_num_inj a b : loc_num a = loc_num b -> a = b. Proof. destruct a, b; simpl; congruence. Qed.
 Lemma kid_num_inj a b : kid_num a = kid_num b -> a = b. Proof. destruct a, b; simpl; congruence. Qed.
 Lemma par_num_inj a b : par_num a = par_num b -> a = b.
-Proof. destruct a as [| | | | |[]| |[]], b as [| | | | |[]| |[]]; simpl; congruence. Qed.
+Proof. destruct a as [| | | | |[]| |[]|], b as [| | | | |[]| |[]|]; simpl; congruence. Qed.
 Lemma c2p_num_inj a b : c2p_num a = c2p_num b -> a = b. Proof. destruct a as [|[]], b as [|[]]; simpl; congruence. Qed.
 Lemma p2c_num_inj a b : p2c_num a = p2c_num b -> a = b. Proof. destruct a as [[]|], b as [[]|]; simpl; congruence. Qed.
 
